@@ -11,7 +11,7 @@ def expectedC19 : List (String × String) := [
   ("file:comparison.py", "c46d05a1308c92ce"),
   ("file:compat.py", "2a259e16acd200bc"),
   ("file:config.py", "142bde514c82c29d"),
-  ("file:transform/conversions.py", "c717da0d8eb0ba94"),
+  ("file:transform/conversions.py", "2209b8de15c75a9f"),
   ("file:transform/maps.py", "e13eb9e40cc9aa94"),
   ("file:util/base.py", "771a68108eeb730d"),
   ("transform.conversions.FieldConvertView", "b1346e6539cc1ac2"),
